@@ -168,6 +168,47 @@ theorem load_sound (bc : BuildCache) (p : Str) (t : Time) (fs : FS) (pl : P) (h 
           subst h
           exact ⟨b, t0, hb, ho, hst⟩
 
+/-- Load is a function of what the bytes at the path OPEN to and of nothing else: whatever replaced the stored
+    bytes (damage, another writer), the time that decides freshness is the one INSIDE the envelope of the bytes
+    that are there now, and the payload returned is the one sealed with that time. -/
+theorem load_depends_only_on_envelope (bc : BuildCache) (p : Str) (t : Time) (fs : FS) (b' : Bytes) :
+    load E bc p t (fs.set (cachedPath E bc.cfg p) (some b')) =
+      (if isTestPackage bc p then none else
+        match E.openE b' with
+        | none => none
+        | some (t0', pl') => if t > t0' then none else some pl') := by
+  unfold load
+  simp only [FS.set, if_true]
+  rfl
+
+/-- MODELLING ASSUMPTION about the real envelope (not a theorem; probed by the check on every run): the build
+    time is sealed TOGETHER with the payload under the checksum, i.e. bytes that open are exactly the sealed form
+    of what they open to (an idealised checksum: no damaged file opens). A format that keeps the time outside the
+    checksummed part violates it. -/
+def Authentic : Prop := ∀ b x, E.openE b = some x → b = E.sealE x
+
+/-- under `Authentic`: a Load that hits read a byte-exact sealed entry, and its own sealed time is not older than
+    the sources -/
+theorem load_hit_is_exact_seal (hauth : Authentic E) (bc : BuildCache) (p : Str) (t : Time) (fs : FS) (pl : P)
+    (h : load E bc p t fs = some pl) :
+    ∃ t0, fs (cachedPath E bc.cfg p) = some (E.sealE (t0, pl)) ∧ ¬ t > t0 := by
+  obtain ⟨_, b, t0, hb, ho, hst⟩ := load_sound E bc p t fs pl h
+  exact ⟨t0, by rw [hb, hauth b (t0, pl) ho], hst⟩
+
+/-- under `Authentic`: after the entry sealed at `t0` has been replaced by ANY other bytes, a Load with sources
+    newer than `t0` misses unless those bytes are a complete sealed entry with a later time of its own (i.e. a
+    genuine newer Store); in particular damage never turns a stale entry into a fresh one, and bytes that are not
+    a sealed entry are a miss for every source time -/
+theorem damaged_never_fresh (hauth : Authentic E) (bc : BuildCache) (p : Str) (t : Time) (fs : FS) (b' : Bytes) :
+    (∀ x, b' ≠ E.sealE x) → load E bc p t (fs.set (cachedPath E bc.cfg p) (some b')) = none := by
+  intro hne
+  rw [load_depends_only_on_envelope]
+  split
+  · rfl
+  · cases ho : E.openE b' with
+    | none => rfl
+    | some x => exact absurd (hauth b' x ho) (hne x)
+
 /-! ## Store: steps, crash atomicity -/
 
 theorem run_append (fs : FS) (a b : List Step) : run fs (a ++ b) = run (run fs a) b := by
